@@ -122,6 +122,14 @@ def build(structure, c1, c2, c3):
         r2 = PlainOp([], 0, [Region([Block([w2])])])
         loop = scf.ForOp(idx[0].results[0], idx[1].results[0], idx[2].results[0], [], Block([r1, r2, scf.YieldOp()]))
         body = allocs + idx + [loop, w3]
+    elif structure == "if_else":
+        # w1; region-op { w2 } else { w3 }      (exactly one of the two regions runs, or none)
+        r = PlainOp([], 0, [Region([Block([w2])]), Region([Block([w3])])])
+        body = allocs + [w1, r]
+    elif structure == "if_else_then":
+        # region-op { w1 } else { w2 }; w3
+        r = PlainOp([], 0, [Region([Block([w1])]), Region([Block([w2])])])
+        body = allocs + [r, w3]
     else:
         # region-op { w1 }; w2; w3      (no loop)
         r1 = PlainOp([], 0, [Region([Block([w1])])])
@@ -159,7 +167,16 @@ def conflict(ea, eb):
     return any(x in wb for x in ra) or any(x in rb or x in wb for x in wa)
 
 
-STRUCTS = ("flat", "loop3", "loop_then", "then_loop", "nested_in_loop", "loop_in_loop_a", "loop_in_loop_b", "two_regions_in_loop", "region_flat")
+def conflict_rev(ea, eb):
+    """the mirror case: ea happens first on EVERY core (an op no rule dispatches), eb later on one core only"""
+    core_a, ra, wa = ea
+    core_b, rb, wb = eb
+    if core_a != "all" or len(ra) == 0 or core_b not in ("dm", "compute"):  # (a dealloc first would be a use after free)
+        return False
+    return any(x in wb for x in ra) or any(x in rb or x in wb for x in wa)
+
+
+STRUCTS = ("flat", "loop3", "loop_then", "then_loop", "nested_in_loop", "loop_in_loop_a", "loop_in_loop_b", "two_regions_in_loop", "region_flat", "if_else", "if_else_then")
 
 
 @contract
@@ -202,6 +219,7 @@ class InsertSyncBarrier_contract:
             for (w, c) in workers:
                 eff[id(w)] = effects(c)
             ok = True
+            ok_rev = True
             for t in traces_of(mod.body.block.ops, inserted):
                 n = len(t)
                 for i in range(n):
@@ -210,11 +228,15 @@ class InsertSyncBarrier_contract:
                         continue
                     for j in range(i + 1, n):
                         ej = eff.get(id(t[j]))
-                        if ej is None or not conflict(ei, ej):
+                        if ej is None or not (conflict(ei, ej) or conflict_rev(ei, ej)):
                             continue
                         if not any(isinstance(t[k], snax.ClusterSyncOp) for k in range(i + 1, j)):
-                            ok = False
+                            if conflict(ei, ej):
+                                ok = False
+                            else:
+                                ok_rev = False
             check("a barrier separates every conflicting cross-core pair on every trace [" + tag + "]", ok)
+            check("(mirror case) ... also when the EARLIER op is one that runs on every core and the later one runs on one core [" + tag + "]", ok_rev)
 
     def canary(sh, a, ret):
         check("canary: the pass never inserts anything", all(len(log) == 0 for (_, _, log, _) in ret))
